@@ -29,6 +29,8 @@ def compare(req, impl, model):
     r = req.split()
     if r[0] in ("o1", "o2", "long"):
         return None  # judged by the harness oracle alone (the model's character table does not cover these texts)
+    if impl.startswith("err") and model.startswith("err"):
+        return None  # "returns a value or an error": the statement names no error kind (the enum digests hash `err` only)
     if r[0] == "parse1":
         return _c01.compare("parse 0 " + " ".join(r[1:]), impl, model)
     if r[0] == "parse2":
